@@ -78,3 +78,25 @@ Definition fqc_step_fixed (st : Z * bool) (o : fqc_op) : Z * bool :=
   end.
 Definition fqc_enqs (ops : list fqc_op) : Z :=
   fold_right (fun o a => match o with FcEnq => 1 + a | _ => a end) 0 ops.
+
+(* pkg/cc/interceptor.go + pkg/gcc/send_side_bwe.go + the pacer's ssrcToWriter map (LeakyBucketPacer and
+   NoOpPacer alike): BindLocalStream -> SendSideBWE.AddStream -> pacer.AddStream sets the entry;
+   UnbindLocalStream -> SendSideBWE.RemoveStream -> pacer.RemoveStream (interface assertion) deletes it
+   (fix 04f38da). gw_step_keep is a pacer whose RemoveStream is never reached (the code before that fix,
+   or an assertion that misses the configured pacer): the writer of an unbound stream stays for ever. *)
+Inductive gw_op := GwBind (ssrc : Z) | GwUnbind (ssrc : Z).
+Record gw := { gw_bound : list Z; gw_writers : list Z }.
+Definition gw_init : gw := {| gw_bound := []; gw_writers := [] |}.
+Definition gw_step (st : gw) (o : gw_op) : gw :=
+  match o with
+  | GwBind s => {| gw_bound := addset s (gw_bound st); gw_writers := addset s (gw_writers st) |}
+  | GwUnbind s => {| gw_bound := delset s (gw_bound st); gw_writers := delset s (gw_writers st) |}
+  end.
+Definition gw_step_keep (st : gw) (o : gw_op) : gw :=
+  match o with
+  | GwBind s => {| gw_bound := addset s (gw_bound st); gw_writers := addset s (gw_writers st) |}
+  | GwUnbind s => {| gw_bound := delset s (gw_bound st); gw_writers := gw_writers st |}
+  end.
+Fixpoint gw_churn (a : Z) (n : nat) : list gw_op :=
+  match n with O => [] | S k => GwBind a :: GwUnbind a :: gw_churn (a + 1) k end.
+Definition gw_sizes (st : gw) : list Z := [zlen (gw_writers st)].
